@@ -25,4 +25,12 @@ Definition x_C03_worker_run (c : val) : val :=
 
 (* v = (case observed): the oracle of Properties/C03.v, theorem C03_worker_model_passes *)
 Definition x_C03_worker_ok (v : val) : val :=
-  vbool (ok_worker (dec_witems (nthv 0 v)) (dec_wobs (nthv 1 v))).
+  vbool (negb (is_panic (nthv 1 v)) && ok_worker (dec_witems (nthv 0 v)) (dec_wobs (nthv 1 v))).
+
+(* the real stream: case (mode npkts order), observation ((before ..) (during ..) (after ..)) = the
+   conversion goroutines alive in the process (rtp demuxer, flv muxer, ts muxer) before NewStream,
+   while the stream is open, and after Stream.Close() has returned and everything has settled:
+   none of that stream remains *)
+Definition x_C03_conv_e2e_ok (v : val) : val :=
+  let o := nthv 1 v in
+  vbool (negb (is_panic o) && Nat.eqb (length (as_list (nthv 2 o))) 3 && val_eqb (nthv 0 o) (nthv 2 o)).
